@@ -296,6 +296,11 @@ Proof.
   - destruct (norm_index i (length (kids w ir))) as [k|]; try discriminate.
     apply symx_flagged', symx_ml_assign.
   - cbv zeta. apply symx_flagged', symx_ml_assign.
+  - (* OModSetExt *) cbv zeta.
+    destruct (SeqOps.py_slice_indices a b c (length (kids w ir))) as [[[s e] st]|er]; try discriminate.
+    destruct (st =? 1); try discriminate.
+    destruct (negb (Nat.eqb (length vs) (length (SeqOps.py_range_positions s e st (length (kids w ir)))))); try discriminate.
+    apply symx_flagged', symx_ml_assign.
   - match goal with |- context [fold_ok ?F ?L w] =>
       pose proof (symx_fold_ok F L (fun wx v => symx_ml_remove_hook wx ir v) w) as H;
       destruct (fold_ok F L w) as [w1 ok] end.
